@@ -440,3 +440,34 @@ def r9_edge_step_conservation(ck, P):
             ck.violation(R, f.name, "carry does not cancel (x' = %s)" % x1, "pixman_edge_step has a path that leaves x' = %s and e' = %s: the x carry and the error-term correction do not cancel (residue %s), so the edge leaves its line - a step backwards does not undo a step forwards" % (x1, e1, law), '%s:%d' % (f.unit.name, f.line))
     if not results:
         ck.incomplete(R, 'no path through pixman_edge_step reached a return')
+
+
+def r10_row_weight_constant(ck, P):
+    """sibling agreement with the macro definition: in the a8 rasteriser a span that is fully covered in one sample row gains
+    N_X_FRAC(8) per row; the deferred fill multiplies its row count by that same weight at every write-out."""
+    R = ck.rule('C12-R10', 'in the a8 edge rasteriser every write-out of the deferred span multiplies the row count (fill_size) by N_X_FRAC (8), the weight a fully covered pixel gains per sample row, so that a pixel covered in all N_Y_FRAC (8) rows reaches exactly the maximum: no write-out uses another constant', floor=10)
+    C = consts.get(['PX_NX8', 'PX_NY8'], pre='#define PX_NX8 N_X_FRAC (8)\n#define PX_NY8 N_Y_FRAC (8)')
+    nx = int(C['PX_NX8'])
+    n = 0
+    for un, fn, f in sorted((un_, fn_, f_) for un_, u_ in P.units.items() if un_.startswith('pixman-edge') for fn_, f_ in u_.functions.items()):
+        if not fn.startswith('rasterize_edges_8'):
+            continue
+        ck.saw(f)
+        for x in f.insts():
+            if x.op != 'mul':
+                continue
+            k = [a for a in x.a if a[0] == 'c']; v = [a for a in x.a if a[0] != 'c']
+            if len(k) != 1 or len(v) != 1:
+                continue
+            y = f.v(v[0])
+            while y is not None and y.op in ('sext', 'zext', 'trunc') and not y.dv:
+                y = f.v(y.a[0])
+            if y is None or y.dv != 'fill_size':
+                continue
+            n += 1
+            if int(k[0][1]) == nx:
+                ck.ok(R, '%s/%s %s: fill_size * %d' % (un, fn, x.loc(), nx))
+            else:
+                ck.violation(R, fn, 'write-out weight at %s' % x.loc(), '%s writes the deferred span out with weight fill_size * %d; a fully covered pixel gains N_X_FRAC (8) = %d per sample row everywhere else, so the interior of that span ends up lighter (or heavier) than the sum of its rows and a shape no longer equals the sum of its horizontal slices' % (fn, int(k[0][1]), nx), x.loc())
+    if n == 0:
+        ck.incomplete(R, 'no multiplication of the row count by a constant found in rasterize_edges_8')
